@@ -106,7 +106,9 @@ prop("C16", "proof",
      "combination of the owner/group/symlink/permission flags: each restriction in force yields its specific "
      "code before the callback and the parser are reached, a conforming file proceeds; the replaced parser "
      "requires 'gate passed' at its only call site. The five setter/reset functions are under contract for their "
-     "exact post-state. Call-graph fact: no other path into the parser.",
+     "exact post-state. Call-graph fact: no other path into the parser. That the refusal of ANY consulted file "
+     "(main file or drop-in) reaches the caller of every layered entry point as that code, with nothing handed "
+     "back, is the bounded part (history.*, dropins.*, wrappers.fn7/8: labelled bounded, not counted as proved).",
      "Trusted: lstat reports the truth about the file; the kernel's notion of owner/group/symlink.",
      "CBMC function contracts (dfcc), loop-free, full-domain symbolic stat results", "6 C16")
 PARSER_NOTE = ("Bounded: the line under test is every byte string up to the stated N (8-11 bytes) in a finite, "
